@@ -4,7 +4,8 @@
 (*  (a) after every resolver event the manager's table equals the oracle    *)
 (*      folded over the events so far (MdnsOracle);                         *)
 (*  (b) at quiescence the last report the hub processed equals the final    *)
-(*      table.                                                              *)
+(*      table;                                                              *)
+(*  (c) no table and no report lists an address of a service twice.         *)
 (***************************************************************************)
 EXTENDS MdnsOracle, Json
 CONSTANT ObsFile
@@ -24,7 +25,10 @@ Judge(t) ==
         b3 == IF Tab(t.final) # OracleF(h, Len(h)) THEN {<<"C17", "final-table-differs-from-history">>} ELSE {}
         b4 == IF Len(t.processed) = 0 /\ \E i \in 1..Len(h) : OracleF(h, i) # OracleF(h, i - 1)
               THEN {<<"C17", "change-never-reported">>} ELSE {}
-    IN  b1 \cup b2 \cup b3 \cup b4
+        b5 == {<<"C17", "duplicate-address-in-table", i>> : i \in {i \in 1..Len(t.events) : t.events[i].dup}}
+              \cup (IF t.finalDup THEN {<<"C17", "duplicate-address-in-table", 0>>} ELSE {})
+              \cup (IF t.processedDup THEN {<<"C17", "duplicate-address-in-report">>} ELSE {})
+    IN  b1 \cup b2 \cup b3 \cup b4 \cup b5
 
 Init == l = 0
 Next == /\ l < Len(Trace)
